@@ -645,11 +645,11 @@ Section FullSafe.
       assert (Hm : m = c'). { rewrite G2, app_length in Em. lia. }
       destruct st as [|cur|]; try contradiction.
       + cbn [option_map]. exists (OFull (FInProgress m)), c'. split; [reflexivity|]. split; [exact I'|].
-        cbn [sinvF]. repeat split; auto.
+        cbn [sinvF]. repeat split; auto; try lia.
       + cbn [sinvF] in SI. destruct SI as [-> [Hcur _]].
         assert (Lc : Nat.leb c m = true) by (apply Nat.leb_le; lia). rewrite Lc. cbn [option_map].
         exists (OFull (FInProgress m)), c'. split; [reflexivity|]. split; [exact I'|].
-        cbn [sinvF]. repeat split; auto.
+        cbn [sinvF]. repeat split; auto; try lia.
   Qed.
 
   Lemma emit_okF : forall bs seen E gs c o, inv sk seen E gs c -> sinvF seen gs c o ->
@@ -673,3 +673,270 @@ Section FullSafe.
       cbn [sinvF]. repeat split; auto. rewrite skipn_length. lia.
   Qed.
 End FullSafe.
+
+(* ------------------------------------------------------------------ runs of the ordered table *)
+Section Run.
+  Context {A : Type} (sk : row -> row) (sinv : list (row * A) -> groups A -> nat -> gord -> Prop) (bs : nat).
+  Context (push_ok : forall seen E gs c o b,
+              inv sk seen E gs c -> sinv seen gs c o -> clustered (map (skp sk) (seen ++ b)) ->
+              exists o' c', ot_push b (OTab gs o) = Some (OTab (intern_all gs b) o') /\
+                            inv sk (seen ++ b) E (intern_all gs b) c' /\ sinv (seen ++ b) (intern_all gs b) c' o').
+  Context (emit_ok : forall seen E gs c o, inv sk seen E gs c -> sinv seen gs c o ->
+              exists n o', n <= c /\ ot_emit bs (OTab gs o) = Some (firstn n gs, OTab (skipn n gs) o') /\
+                           sinv seen (skipn n gs) (c - n) o').
+
+  Lemma feed_run : forall (evs : list (ev A)) seen E gs c o,
+    Forall is_feed evs -> inv sk seen E gs c -> sinv seen gs c o ->
+    clustered (map (skp sk) (seen ++ evs_input evs)) ->
+    exists outs gs' c' o', ot_run bs evs (OTab gs o) = Some (outs, OTab gs' o') /\
+      inv sk (seen ++ evs_input evs) (E ++ concat outs) gs' c' /\ sinv (seen ++ evs_input evs) gs' c' o'.
+  Proof.
+    induction evs as [|e evs IH]; intros seen E gs c o F I SI C.
+    - exists [], gs, c, o. cbn [ot_run evs_input map concat]. rewrite !app_nil_r. auto.
+    - inversion F as [|? ? Fe Fr]; subst. unfold evs_input in *. cbn [map concat] in *. fold (evs_input evs) in *.
+      destruct e as [b| | |]; try contradiction; cbn [ev_input] in *.
+      + rewrite app_assoc in C. destruct (push_ok seen E gs c o b I SI (clustered_prefix _ _ (eq_ind _ _ C _ (map_app _ _ _))))
+          as [o1 [c1 [P [I1 S1]]]].
+        destruct (IH (seen ++ b) E (intern_all gs b) c1 o1 Fr I1 S1 C) as [outs [gs' [c' [o' [R [I2 S2]]]]]].
+        exists ([] :: outs), gs', c', o'. cbn [ot_run]. rewrite P. cbn [option_map]. rewrite R. cbn [option_map fst snd concat app].
+        rewrite app_assoc. auto.
+      + cbn [app] in *. destruct (emit_ok seen E gs c o I SI) as [n [o1 [Hn [P S1]]]].
+        pose proof (inv_emit sk seen E gs c n I Hn) as I1.
+        destruct (IH seen (E ++ firstn n gs) (skipn n gs) (c - n) o1 Fr I1 S1 C) as [outs [gs' [c' [o' [R [I2 S2]]]]]].
+        exists (firstn n gs :: outs), gs', c', o'. cbn [ot_run]. rewrite P. rewrite R. cbn [option_map fst snd concat].
+        rewrite app_assoc. auto.
+  Qed.
+End Run.
+
+(* after input_done: every emit attempt hands out the next batch_size groups until the table is empty *)
+Lemma drain_run : forall {A} bs n (gs : groups A) o, 1 <= bs -> gord_emit_to o = Some EAll -> length gs <= n ->
+  exists outs, ot_run bs (repeat EvEmit n) (OTab gs o) = Some (outs, OTab [] o) /\ concat outs = gs.
+Proof.
+  intros A bs. induction n as [|n IH]; intros gs o Hbs He Hl.
+  - destruct gs; [|cbn in Hl; lia]. exists []. auto.
+  - cbn [repeat ot_run]. unfold ot_emit. cbn [ot_gs ot_ord]. destruct gs as [|g gs1] eqn:Eg.
+    + destruct (IH [] o Hbs He) as [outs [R Co]]; [cbn; lia|]. rewrite R. exists ([] :: outs). auto.
+    + rewrite <- Eg in *. rewrite He. cbn [clamp_emit_to]. destruct (Nat.leb (length gs) bs) eqn:L.
+      * destruct (IH [] o Hbs He) as [outs [R Co]]; [cbn; lia|]. rewrite R. exists (gs :: outs).
+        cbn [option_map fst snd concat]. rewrite Co, app_nil_r. auto.
+      * apply Nat.leb_gt in L.
+        destruct (IH (skipn bs gs) o Hbs He) as [outs [R Co]]; [rewrite skipn_length; lia|]. rewrite R.
+        exists (firstn bs gs :: outs). cbn [option_map fst snd concat]. rewrite Co, firstn_skipn. auto.
+Qed.
+
+Lemma ot_run_app : forall {A} bs (e1 e2 : list (ev A)) t o1 t1 o2 t2,
+  ot_run bs e1 t = Some (o1, t1) -> ot_run bs e2 t1 = Some (o2, t2) -> ot_run bs (e1 ++ e2) t = Some (o1 ++ o2, t2).
+Proof.
+  intros A bs. induction e1 as [|e e1 IH]; intros e2 t o1 t1 o2 t2 R1 R2; cbn [ot_run app] in *.
+  - inversion R1; subst. exact R2.
+  - destruct (match e with EvBatch b => _ | EvEmit => _ | EvDone => _ | EvTake => _ end) as [[o t']|]; [|discriminate].
+    destruct (ot_run bs e1 t') as [[os t'']|] eqn:R; [|discriminate]. cbn [option_map fst snd] in R1. inversion R1; subst.
+    rewrite (IH e2 t' os t1 o2 t2 R R2). reflexivity.
+Qed.
+
+(* ------------------------------------------------------------------ the theorems about ordered aggregation *)
+Lemma intern_len_ub : forall {A} (b : list (row * A)) gs, length (intern_all gs b) <= length gs + length b.
+Proof.
+  induction b as [|[k x] b IH]; intros gs; cbn [intern_all length]; [lia|].
+  specialize (IH (add_row k x gs)).
+  assert (length (add_row k x gs) <= S (length gs)).
+  { destruct (in_keys_dec k gs) as [Y|N]; [rewrite add_row_present_len; auto | rewrite add_row_absent_len; auto]. }
+  lia.
+Qed.
+
+Section Ordered.
+  Context {A : Type}.
+
+  Lemma feed_any : forall full idx bs (evs : list (ev A)),
+    Forall is_feed evs -> sorted_on full idx (evs_input evs) ->
+    exists outs gs' c' o', ot_run bs evs (OTab [] (ord_start full idx)) = Some (outs, OTab gs' o') /\
+      inv (ord_sk full idx) (evs_input evs) (concat outs) gs' c' /\
+      gord_input_done o' = gord_input_done (ord_start full idx).
+  Proof.
+    intros full idx bs evs F S. unfold sorted_on in S. destruct full; cbn [ord_start ord_sk] in *.
+    - destruct (feed_run (fun k => k) sinvF bs push_okF (emit_okF bs) evs [] [] [] 0 (OFull FStart) F (inv_nil _) eq_refl S)
+        as [outs [gs' [c' [o' [R [I SI]]]]]].
+      exists outs, gs', c', o'. split; [exact R|]. split; [exact I|].
+      destruct o' as [| |st]; try contradiction. reflexivity.
+    - destruct (feed_run (proj idx) (sinvP idx) bs (push_okP idx) (emit_okP idx bs) evs [] [] [] 0 (OPartial idx PStart) F
+                         (inv_nil _) (conj eq_refl eq_refl) S)
+        as [outs [gs' [c' [o' [R [I SI]]]]]].
+      exists outs, gs', c', o'. split; [exact R|]. split; [exact I|].
+      destruct o' as [|idx' st|]; try contradiction. destruct st; try contradiction; destruct SI as [-> _]; reflexivity.
+  Qed.
+
+  (* EARLY EMISSION IS SAFE.  Whatever the batching and whenever emission is attempted: no panic; every group that has
+     been emitted contains exactly the rows with its key of the WHOLE input -- those already consumed and those that
+     only arrive later ([rest]) --, in particular no later row has the key of an emitted group; and nothing is lost:
+     emitted groups ++ groups still in the table = the first-seen grouping of the consumed input. *)
+  Theorem early_emit_safe_proof : forall full idx bs (evs : list (ev A)) rest,
+    Forall is_feed evs -> sorted_on full idx (evs_input evs ++ rest) ->
+    exists outs t, ot_run bs evs (OTab [] (ord_start full idx)) = Some (outs, t) /\
+      (forall g, In g (concat outs) ->
+         snd g = members (fst g) (evs_input evs ++ rest) /\ forall p, In p rest -> fst p <> fst g) /\
+      concat outs ++ ot_gs t = fs_groups (evs_input evs).
+  Proof.
+    intros full idx bs evs rest F S.
+    assert (S1 : sorted_on full idx (evs_input evs)).
+    { unfold sorted_on in *. rewrite map_app in S. apply clustered_prefix in S. exact S. }
+    destruct (feed_any full idx bs evs F S1) as [outs [gs' [c' [o' [R [I _]]]]]].
+    exists outs, (OTab gs' o'). split; [exact R|]. split; [|apply (inv_cat _ _ _ _ _ I)].
+    intros g Hg.
+    assert (NL : forall p, In p rest -> fst p <> fst g).
+    { intros p Hp Heq. apply (closed_absent _ _ _ _ _ rest I S g p); auto.
+      - apply in_or_app; left; exact Hg.
+      - unfold skp. rewrite Heq. reflexivity. }
+    split; [|exact NL].
+    rewrite members_app. rewrite (members_notin (fst g) rest).
+    - rewrite app_nil_r. apply fs_groups_members. rewrite <- (inv_cat _ _ _ _ _ I). apply in_or_app; left; exact Hg.
+    - intros Hk. apply in_map_iff in Hk. destruct Hk as [p [Ep Hp]]. apply (NL p Hp Ep).
+  Qed.
+
+  (* ... and at the end of the input everything is emitted: the concatenation of all output batches IS the
+     first-seen grouping of the input (one entry per distinct key, in order of first occurrence, each with all its
+     rows in input order), and the table is empty. *)
+  Theorem ordered_stream_exact_proof : forall full idx bs (evs : list (ev A)) n,
+    1 <= bs -> Forall is_feed evs -> sorted_on full idx (evs_input evs) -> length (evs_input evs) <= n ->
+    exists outs, ot_run bs (evs ++ EvDone :: repeat EvEmit n) (OTab [] (ord_start full idx))
+                 = Some (outs, OTab [] (gord_input_done (ord_start full idx))) /\
+                 concat outs = fs_groups (evs_input evs).
+  Proof.
+    intros full idx bs evs n Hbs F S Hn.
+    destruct (feed_any full idx bs evs F S) as [outs [gs' [c' [o' [R [I D]]]]]].
+    assert (Hl : length gs' <= n).
+    { pose proof (inv_cat _ _ _ _ _ I) as Ec. apply (f_equal (@length _)) in Ec. rewrite app_length in Ec.
+      pose proof (intern_len_ub (evs_input evs) (@nil (row * list A))) as U. unfold fs_groups in Ec. cbn [length] in U. lia. }
+    assert (He : gord_emit_to (gord_input_done o') = Some EAll).
+    { rewrite D. destruct full; reflexivity. }
+    destruct (drain_run bs n gs' (gord_input_done o') Hbs He Hl) as [outs2 [R2 C2]].
+    exists (outs ++ [] :: outs2). split.
+    - rewrite <- D. apply (ot_run_app bs evs (EvDone :: repeat EvEmit n) _ outs (OTab gs' o')); auto.
+      cbn [ot_run]. unfold ot_done. cbn [ot_gs ot_ord]. rewrite R2. reflexivity.
+    - rewrite concat_app. cbn [concat app]. rewrite C2. apply (inv_cat _ _ _ _ _ I).
+  Qed.
+End Ordered.
+
+(* ------------------------------------------------------------------ strategies as corollaries of C02's exchange theorem *)
+Lemma final_of_states : forall fn (l : list (row * value)) parts S,
+  is_split l parts -> agg_dom fn (map snd l) -> Permutation S (concat (map (partial_groups fn) parts)) ->
+  Permutation (final_groups fn S) (ref_groups fn l).
+Proof.
+  intros fn l parts S SL Hd P.
+  pose proof (group_partitioned_final fn (fun _ => 0) l parts (fun _ => S) 1 SL Hd) as G.
+  cbn [seq map concat parts_of] in G. rewrite !app_nil_r in G. apply G.
+  - unfold is_split. cbn [parts_of seq map concat]. rewrite app_nil_r. exact P.
+  - intros i x Hi _. lia.
+Qed.
+
+Lemma perm_concat_map : forall {X Y} (f g : X -> list Y) (ls : list X),
+  (forall x, Permutation (f x) (g x)) -> Permutation (concat (map f ls)) (concat (map g ls)).
+Proof. induction ls; intros H; cbn [map concat]; [constructor|]. apply Permutation_app; auto. Qed.
+
+Theorem spill_merge_eq_proof : forall fn leb (l : list (row * value)) segs,
+  is_split l segs -> agg_dom fn (map snd l) -> Permutation (spill_merge fn leb segs) (ref_groups fn l).
+Proof.
+  intros fn leb l segs SL Hd. unfold spill_merge, spill_runs. apply (final_of_states fn l segs); auto.
+  etransitivity; [apply kmerge_perm|].
+  apply (perm_concat_map (fun s => isort leb (partial_groups fn s)) (partial_groups fn)). intros x. apply isort_perm.
+Qed.
+
+Definition skip_parts (ps : list (row * value) * list (row * value)) : list (list (row * value)) :=
+  fst ps :: map (fun p => [p]) (snd ps).
+Lemma concat_singletons : forall {X} (l : list X), concat (map (fun p => [p]) l) = l.
+Proof. induction l; cbn; [reflexivity|]. f_equal. exact IHl. Qed.
+Lemma skip_partial_out_parts : forall fn ps,
+  skip_partial_out fn ps = concat (map (partial_groups fn) (skip_parts ps)).
+Proof.
+  intros fn [pre suf]. unfold skip_partial_out, skip_parts. cbn [fst snd map concat]. f_equal.
+  induction suf as [|[k v] suf IH]; [reflexivity|]. cbn [map concat]. rewrite <- IH. reflexivity.
+Qed.
+Lemma concat_concat_map : forall {X Y} (f : X -> list (list Y)) (ls : list X),
+  concat (concat (map f ls)) = concat (map (fun x => concat (f x)) ls).
+Proof. induction ls; cbn [map concat]; [reflexivity|]. rewrite concat_app, IHls. reflexivity. Qed.
+
+(* skipped partial aggregation, any point of the switch in every input partition, any key-respecting exchange *)
+Theorem skip_partial_eq_proof : forall fn (assign : row -> nat) (l : list (row * value)) pss
+    (T : nat -> list (row * res pstate)) n,
+  is_split l (map (fun ps => fst ps ++ snd ps) pss) -> agg_dom fn (map snd l) ->
+  is_split (concat (map (skip_partial_out fn) pss)) (parts_of T n) -> key_respecting fst assign T n ->
+  Permutation (concat (map (fun i => final_groups fn (T i)) (seq 0 n))) (ref_groups fn l).
+Proof.
+  intros fn assign l pss T n SL Hd ST KR.
+  apply (group_partitioned_final fn assign l (concat (map skip_parts pss)) T n); auto.
+  - unfold is_split in *. rewrite concat_concat_map.
+    replace (map (fun x => concat (skip_parts x)) pss) with (map (fun ps => fst ps ++ snd ps) pss); [exact SL|].
+    apply map_ext. intros [pre suf]. unfold skip_parts. cbn [fst snd concat]. rewrite concat_singletons. reflexivity.
+  - replace (concat (map (partial_groups fn) (concat (map skip_parts pss)))) with (concat (map (skip_partial_out fn) pss));
+      [exact ST|].
+    rewrite concat_map, map_map, concat_concat_map. f_equal. apply map_ext. intros ps. apply skip_partial_out_parts.
+Qed.
+Theorem skip_partial_single_proof : forall fn (l : list (row * value)) pss,
+  is_split l (map (fun ps => fst ps ++ snd ps) pss) -> agg_dom fn (map snd l) ->
+  Permutation (final_groups fn (concat (map (skip_partial_out fn) pss))) (ref_groups fn l).
+Proof.
+  intros fn l pss SL Hd.
+  pose proof (skip_partial_eq_proof fn (fun _ => 0) l pss (fun _ => concat (map (skip_partial_out fn) pss)) 1 SL Hd) as G.
+  cbn [seq map concat parts_of] in G. rewrite !app_nil_r in G. apply G.
+  - unfold is_split. cbn [parts_of seq map concat]. rewrite app_nil_r. reflexivity.
+  - intros i x Hi _. lia.
+Qed.
+
+(* ---- the ordered stages composed with the two-phase law *)
+Lemma seg_out_eq : forall {A} full idx bs (evs : list (ev A)),
+  Forall is_feed evs -> sorted_on full idx (evs_input evs) -> seg_out full idx bs evs = fs_groups (evs_input evs).
+Proof.
+  intros A full idx bs evs F S.
+  destruct (early_emit_safe_proof full idx bs evs [] F) as [outs [t [R [_ Cat]]]]; [rewrite app_nil_r; exact S|].
+  unfold seg_out. rewrite (ot_run_app bs evs [EvTake] _ outs t [ot_gs t] (snd (ot_take t)) R eq_refl).
+  rewrite concat_app. cbn [concat]. rewrite app_nil_r. exact Cat.
+Qed.
+Lemma states_of_fs : forall fn (l : list (row * value)), Permutation (states_of fn (fs_groups l)) (partial_groups fn l).
+Proof. intros. unfold states_of, partial_groups. apply Permutation_map. apply fs_groups_group_pairs. Qed.
+Lemma values_of_fs : forall fn (l : list (row * value)), Permutation (values_of fn (fs_groups l)) (ref_groups fn l).
+Proof. intros. unfold values_of, ref_groups. apply Permutation_map. apply fs_groups_group_pairs. Qed.
+Lemma finals_of_fs : forall fn (S : list (row * res pstate)), Permutation (finals_of fn (fs_groups S)) (final_groups fn S).
+Proof. intros. unfold finals_of, final_groups. apply Permutation_map. apply fs_groups_group_pairs. Qed.
+
+(* ordered partial stage (early emission + take_state_batch under memory pressure) over ANY segmentation of ANY
+   partitioning of the input, then a final stage over the concatenated states *)
+Theorem ordered_partial_final_proof : forall fn full idx bs (l : list (row * value)) (evss : list (list (ev value))),
+  Forall (fun evs => Forall is_feed evs /\ sorted_on full idx (evs_input evs)) evss ->
+  is_split l (map evs_input evss) -> agg_dom fn (map snd l) ->
+  Permutation (final_groups fn (concat (map (fun evs => states_of fn (seg_out full idx bs evs)) evss))) (ref_groups fn l).
+Proof.
+  intros fn full idx bs l evss Fa SL Hd. apply (final_of_states fn l (map evs_input evss)); auto.
+  clear SL Hd. rewrite map_map. induction evss as [|evs evss IH]; cbn [map concat]; [constructor|].
+  inversion Fa as [|? ? [F S] Fr]; subst. apply Permutation_app; [|apply IH; auto].
+  rewrite seg_out_eq; auto. apply states_of_fs.
+Qed.
+
+(* ------------------------------------------------------------------ the executable test of the sortedness hypothesis *)
+Lemma clusteredb_from_sound : forall (l pre : list row) prev seen,
+  ((prev = None /\ pre = []) \/ exists p0 z, pre = p0 ++ [z] /\ prev = Some z) ->
+  (forall y, In y seen <-> In y pre) -> clustered pre ->
+  clusteredb_from prev seen l = true -> clustered (pre ++ l).
+Proof.
+  induction l as [|x l IH]; intros pre prev seen HP HS C H; [rewrite app_nil_r; exact C|].
+  cbn [clusteredb_from] in H. apply andb_prop in H. destruct H as [H1 H2].
+  replace (pre ++ x :: l) with ((pre ++ [x]) ++ l) by (rewrite <- app_assoc; reflexivity).
+  apply (IH (pre ++ [x]) (Some x) (x :: seen)); auto.
+  - right. exists pre, x. auto.
+  - intros y. cbn [In]. rewrite in_app_iff, HS. cbn [In]. tauto.
+  - intros p y post E Hin.
+    destruct (exists_last (l := y :: post)) as [q [w Ew]]; [discriminate|].
+    rewrite Ew, app_assoc in E. apply app_inj_tail in E. destruct E as [E1 E2]. subst w.
+    destruct q as [|y' q].
+    + cbn [app] in Ew. injection Ew as Ey Ep. rewrite app_nil_r in E1. rewrite <- E1 in Hin. rewrite Ey in *.
+      apply orb_prop in H1. destruct H1 as [H1|H1].
+      * destruct HP as [[Hp1 Hp2]|[p0 [z [Hp1 Hp2]]]]; [rewrite Hp1 in H1; discriminate|].
+        rewrite Hp2 in H1. apply row_eqb_eq in H1. rewrite H1 in Hp1. rewrite <- E1, Hp1. exists p0; reflexivity.
+      * exfalso. apply negb_true_iff in H1. assert (existsb (row_eqb x) seen = true); [|congruence].
+        apply existsb_exists. exists x. split; [apply HS; exact Hin | apply row_eqb_refl].
+    + cbn [app] in Ew. injection Ew as Ey Ep. rewrite <- Ey in *. apply (C p y q); auto.
+Qed.
+Lemma clusteredb_sound : forall l : list row, clusteredb l = true -> clustered l.
+Proof.
+  intros l H. apply (clusteredb_from_sound l [] None []); auto.
+  - intros y; tauto.
+  - intros pre x post E. destruct pre; discriminate.
+Qed.
